@@ -104,7 +104,7 @@ fn check_ascii(ctx: &mut Ctx, form: &str, s: &str, radix: u32, upper: bool) {
             d < radix
         });
     if !ok || std::str::from_utf8(b).is_err() {
-        ctx.viol(format!("{} radix={} text={:?}", form, radix, &s[..s.len().min(60)]), "produced text is not ASCII within the radix alphabet", vec![], "ASCII digits of the radix".into(), format!("{:?}", &b[..b.len().min(40)]));
+        ctx.viol(format!("{} radix={} text={:?}", form, radix, String::from_utf8_lossy(&b[..b.len().min(60)])), "produced text is not ASCII within the radix alphabet", vec![], "ASCII digits of the radix".into(), format!("{:?}", &b[..b.len().min(40)]));
     }
 }
 
@@ -340,6 +340,22 @@ fn body(ctx: &mut Ctx) {
                     }
                 }
             }
+            // radices outside 2..=36: the call must panic (C14's business); whatever it does, any String it
+            // hands back must still be valid ASCII -- the unchecked conversion must never see other bytes
+            let oor: Vec<u32> = if i < 4 || i % 37 == 0 { (37..=256u32).chain([0, 1, 257, 1000, u32::MAX]).collect() } else { vec![37, 128, 256] };
+            for r in oor {
+                ctx.case();
+                for neg in [false, true] {
+                    let out = if neg { call(ctx, || n.to_str_radix(r)) } else { call(ctx, || u.to_str_radix(r)) };
+                    ctx.compared(1);
+                    if let Out::Ret(s) = out {
+                        let b = s.as_bytes();
+                        if std::str::from_utf8(b).is_err() || !b.iter().all(|c| c.is_ascii_alphanumeric() || *c == b'-') {
+                            ctx.viol(format!("to_str_radix radix={} v={}{}", r, if neg { "-" } else { "" }, v.to_hex()), "String built by the unchecked conversion holds bytes that are not ASCII digits/letters", vec![], "panic, or ASCII text".into(), format!("{:?}", &b[..b.len().min(40)]));
+                        }
+                    }
+                }
+            }
             ctx.case();
             let texts = call(ctx, || (format!("{}", u), format!("{:x}", u), format!("{:X}", n), format!("{:o}", u), format!("{:b}", n), format!("{:?}", n), format!("{:>+#70x}", n)));
             if let Out::Ret((d, x, ux, o, b, dbg, padded)) = texts {
@@ -355,7 +371,7 @@ fn body(ctx: &mut Ctx) {
                 }
             }
             if i == 77 {
-                ctx.sample(|| format!("v={}: to_str_radix for radix 2..=36 (both signs), 7 formatter outputs, byte-wise ASCII validation", v.to_hex()));
+                ctx.sample(|| format!("v={}: to_str_radix for radix 2..=36 (both signs) and every out-of-range radix 37..=256,0,1,257,1000,2^32-1 (panic or ASCII), 7 formatter outputs, byte-wise ASCII validation", v.to_hex()));
             }
         }
     }
